@@ -416,6 +416,6 @@ def _has_node_with_two_decaying_children(top) -> bool:
 
 META = {
     "technique": "runtime post-conditions on compute_helicity_angles / compute_invariant_masses / HelicityAdapter.create_expressions: lambdified results on generated events vs an independent boost-and-project reference; cross-topology name-collision monitor; four-vector route vs the library's Dalitz closed form",
-    "level_text": "All isobar topologies for 2..5 final states under five labelings (identity, shifted, permuted final ids, permuted intermediate ids, both), on events from seven strata (flat, near-threshold, highly boosted, planar, collinear, axis-aligned, heavy sub-systems), with massless particles and cse on/off, are judged variable by variable against the reference; adapters with all permuted 3- and 4-body topologies registered are monitored for names carrying two values; the three-body polar angle is compared with formulate_scattering_angle for all six id permutations.",
+    "level_text": "All isobar topologies for 2..5 final states under five labelings (identity, shifted, permuted final ids, permuted intermediate ids, both), on events from seven strata (flat, near-threshold, highly boosted, planar, collinear, axis-aligned, heavy sub-systems), with massless particles and cse on/off, are judged variable by variable against the reference; adapters with all permuted 3- and 4-body topologies registered are monitored for names carrying two values; the three-body polar angle is compared with formulate_scattering_angle for all six id permutations. Every other topology case gives the event in a frame in which the decaying state moves; the adapter case attempts to register topologies of other decays and requires refusal with an unchanged registry.",
     "level_note": "Reference encodes the documented naming rule (see assumptions); tolerance derived from the measured sensitivity of each expression to 1e-13 input noise; azimuths at sin(theta) < 1e-6 not judged.",
 }
